@@ -24,9 +24,8 @@ KNOWN = VERIF / "known_findings.json"
 
 def analyser_digest() -> str:
     h = hashlib.sha256()
-    for p in sorted(Path(__file__).resolve().parent.glob("*.py")):
-        if p.name.startswith("c") and p.name[1:3].isdigit():
-            continue  # property rule modules do not influence the ATS
+    for name in ("model.py", "values.py", "interp.py", "libmodel.py", "ats.py"):  # what the ATS depends on
+        p = Path(__file__).resolve().parent / name
         h.update(p.name.encode())
         h.update(p.read_bytes())
     return h.hexdigest()[:12]
@@ -161,7 +160,7 @@ def witness_of(a: ATS, e: Any, limit: int = 30) -> dict[str, Any]:
 
 
 def _j(v: Any) -> Any:
-    if v is None or isinstance(v, (bool, int, str)):
+    if v is None or isinstance(v, (bool, int, str, float)):
         return v
     if isinstance(v, (list, tuple)):
         return [_j(x) for x in v]
